@@ -356,5 +356,79 @@ def _ancestors(nodes, n):
     return out
 
 
+# ---- the same histories generated by a Hypothesis rule-based state machine -------------------------------------
+def history_machine(run_case):
+    """RuleBasedStateMachine whose rules append commands; an invariant re-runs the interpreter+model on the history so
+    far (run_case raises Violation).  The failing history is the replay case of the ordinary `histories` sub-check."""
+    from hypothesis.stateful import RuleBasedStateMachine, initialize, invariant, precondition, rule
+
+    G = st.lists(st.integers(-8, 8).map(lambda v: v / 4.0), min_size=4, max_size=4)
+    IDX = st.sampled_from(list(range(31)))
+
+    class HistoryMachine(RuleBasedStateMachine):
+        def __init__(self):
+            super().__init__()
+            self.case = None
+            self.nodes = 3
+            self.dirty = False
+
+        @initialize(shape=st.sampled_from([[2], [2, 2], [], [3], [1, 2]]), frozen=st.sampled_from([None, None, None, 0, 2]),
+                    data=st.data())
+        def start(self, shape, frozen, data):
+            n = int(np.prod(shape)) if shape else 1
+            leaves = [[data.draw(st.integers(-12, 12)) / 8.0 for _ in range(n)] for _ in range(3)]
+            self.case = {"shape": shape, "leaves": leaves, "frozen": frozen, "steps": []}
+
+        def _add(self, cmd):
+            self.case["steps"].append(cmd)
+            self.dirty = True
+
+        @rule(op=st.sampled_from(UN), a=IDX, c=st.sampled_from([2.0, -1.5, 0.5, 3.0]), ctx=st.booleans())
+        def build_unary(self, op, a, c, ctx):
+            self._add({"k": "build", "op": op, "a": a, "c": c, "ctx": ctx})
+            self.nodes += 1
+
+        @rule(op=st.sampled_from(BIN), a=IDX, b=IDX, ctx=st.booleans())
+        def build_binary(self, op, a, b, ctx):
+            self._add({"k": "build", "op": op, "a": a, "b": b, "ctx": ctx})
+            self.nodes += 1
+
+        @rule(n=IDX, newest=st.booleans(), ctx=st.booleans(), g=G)
+        def backward(self, n, newest, ctx, g):
+            self._add({"k": "backward", "n": n, "ctx": ctx, "g": g, "newest": newest})
+
+        @precondition(lambda self: self.nodes > 3)
+        @rule(n=IDX)
+        def retain(self, n):
+            self._add({"k": "retain", "n": n})
+
+        @rule(n=st.integers(0, 2))
+        def zero_tensor(self, n):
+            self._add({"k": "zero_tensor", "n": n})
+
+        @rule()
+        def zero_module(self):
+            self._add({"k": "zero_module"})
+
+        @rule()
+        def zero_optim(self):
+            self._add({"k": "zero_optim"})
+
+        @rule(n=st.integers(0, 2))
+        def overflow(self, n):
+            self._add({"k": "overflow", "n": n})
+
+        @invariant()
+        def model_agrees(self):
+            if self.case is not None and self.dirty:
+                self.dirty = False
+                run_case({"shape": self.case["shape"], "leaves": self.case["leaves"], "frozen": self.case["frozen"],
+                          "steps": list(self.case["steps"])})
+
+    return HistoryMachine
+
+
 def subchecks():
-    return [SubCheck("histories", check_history, histories, quick=700, thorough=3000, shards_quick=8, shards_thorough=16)]
+    return [SubCheck("histories_rule_based", check_history, None, machine=history_machine, steps=14, quick=120, thorough=600,
+                     shards_quick=4, shards_thorough=8),
+            SubCheck("histories", check_history, histories, quick=700, thorough=3000, shards_quick=8, shards_thorough=16)][::-1]
